@@ -4,6 +4,10 @@
 
 package datatypes
 
+// structural pointers set once by the constructors (stores are only accepted into objects
+// allocated by the storing call)
+//@ immutable WiredDatatype.TransactionDatatype, WiredDatatype.checkPoint, WiredDatatype.wire, TransactionDatatype.BaseDatatype, TransactionDatatype.mutex, BaseDatatype.Datatype, BaseDatatype.ctx, SnapshotDatatype.BaseDatatype
+
 //@ pred wiredWF(w *WiredDatatype) = w.TransactionDatatype != nil && w.TransactionDatatype.BaseDatatype != nil && w.checkPoint != nil
 
 // The buffer of operations awaiting push: non-nil operations with non-nil ids numbered consecutively.
@@ -119,3 +123,14 @@ package datatypes
 //@   ensures[subscribe-checkpoint]  result == nil && ppp.GetPushPullPackOption().HasSubscribeBit() ==> its.checkPoint.Cseq == ppp.CheckPoint.Cseq && math(its.checkPoint.Sseq) + len(ppp.Operations) == math(ppp.CheckPoint.Sseq) + (ppp.CheckPoint.Sseq < len(ppp.Operations) ? 18446744073709551616 : 0)
 //@   ensures[subscribe-resets]      result == nil && ppp.GetPushPullPackOption().HasSubscribeBit() ==> len(its.localBuffer) == 0 && its.opID.Seq == 0
 //@   modifies WiredDatatype.localBuffer, model.OperationID.Seq, model.CheckPoint.Sseq, model.CheckPoint.Cseq, SnapshotDatatype.Snapshot, TransactionDatatype.rollbackSnapshot, TransactionDatatype.rollbackMeta, TransactionDatatype.rollbackOps, errors.singleOrdaError.Code, errors.PushPullError.*, @operations.ModelToOperation
+
+// ReceiveRemoteModelOperations cuts the received operations into units: a transaction
+// operation announces the length of its unit. Safety for ALL inputs: a truncated unit
+// (announced length beyond what was received) or a non-positive length must not panic or hang.
+//@ func (*WiredDatatype).ReceiveRemoteModelOperations
+//@   mode wrap
+//@   props C09 C16
+//@   requires wiredWF(its) && its.BaseDatatype.Datatype != nil && opsWF(ops)
+//@   loop 0 invariant[index-in-range] 0 <= i && i <= len(ops)
+//@   loop 0 decreases len(ops) - i
+//@   modifies *
